@@ -93,12 +93,13 @@ PROPS = {
  ),
  "C19": dict(
     level="proof",
-    claim="Inductive proof, per mutator and per entry size 0..C, that static_vector keeps size<=Capacity, accepts/refuses resize and push_back exactly as specified with all other elements unchanged, copies equal and independent, self-assignment harmless; utl::array, tuple, maybe<int>, either<int,float> construction/copy/assignment tables. History equivalence with std:: and utl::vector ownership are not decided here.",
-    note=E1_NOTE,
-    technique=E1_TECH,
+    claim="Inductive proof, per mutator and per entry size 0..C, that static_vector keeps size<=Capacity, accepts/refuses resize and push_back exactly as specified with all other elements unchanged, copies equal and independent, self-assignment harmless; utl::array, tuple, maybe<int>, either<int,float> construction/copy/assignment tables. plus the ownership discipline of utl::vector on the CFG of every member (R-OWN). History equivalence with std:: is not decided; the missing destruction in either/maybe over non-trivial alternatives is a known finding (F4c).",
+    note=E1_NOTE + " " + E2_NOTE,
+    technique=E1_TECH + " + CFG ownership rule (allocate/deallocate pairing) on instantiations",
     e1=[dict(tu="c19_utl.cpp")],
-    rule=E1_RULE,
-    explanation="class invariant assumed on entry and proved on exit of each mutator quantifies over every history.",
+    e2=[dict(rule="R-OWN")],
+    rule=E1_RULE + "; E2: one instance per instantiated member function of utl::vector<int|double> and per destructor of either/maybe over a non-trivial alternative",
+    explanation="class invariant assumed on entry and proved on exit of each mutator quantifies over every history; ownership discipline of utl::vector (allocate/deallocate pairing, deep copy, grow copies before freeing, destructor frees non-null) is a path property of each member function's CFG.",
     not_decided="utl::vector allocate/deallocate pairing, either/maybe with non-trivial alternatives (known finding F4c), small_vector, element-wise equality after static_vector assignment",
     assumptions=["T in {int,double,size_t}, Capacity in {1,3,4,8}"],
  ),
